@@ -1,7 +1,7 @@
 //! The persistence medium ("simdisk"): a token vector in human-readable or compact mode, and
 //! serde_json text; plus the stream faults that corrupt it.
 
-use crate::gen_r7 as g;
+use crate::g;
 use crate::ops::StreamFault;
 use serde::{Deserialize, Serialize};
 use serde_assert::{Deserializer, Serializer, Token, Tokens};
